@@ -103,6 +103,10 @@ BOUNDARY_LITERALS = [
     "1e00000000000000000000000000000000000000000000000000000000002",
     "0.1e1", "12345.6789e-3", "1E400", "1e-323", "3.14159", "6.02214076e23", "-273.15",
     "99999999999999999999", "0.000001", "1e-7", "123456789012345.6", "0.1234567890123456789",
+    # a hair below / above an integer (the integer view truncates toward zero, it does not round)
+    "2.9999999999", "-0.9999999999999999", "41.99999999999999", "0.99999999999", "2147483646.9999999", "-2147483647.9999999",
+    "3.0000000001", "-5.00000000001", "0.9999999999999999", "1.0000000000000002", "99.999999999999", "-99.999999999999",
+    "2147483647.0000001", "999999999.9999999", "7.999999999e0", "79999999999e-10",
 ]
 
 
